@@ -22,7 +22,7 @@ def read_findings(verif):
 
 def merge_and_report(verif, prop, tier, seed, spec, outpath, harness_rc, wall_s, build_s, run_s, replay, jobs, deadline):
     cnt, mx, sets, samples, viols, notes, info = {}, {}, {}, [], {}, [], {}
-    exhaustive, done, fatal = True, False, []
+    exhaustive, done, fatal, ndone = True, False, [], 0
     with open(outpath, "rb") as f:
         for raw in f:
             line = raw.decode("utf-8", "replace").rstrip("\n")
@@ -58,7 +58,8 @@ def merge_and_report(verif, prop, tier, seed, spec, outpath, harness_rc, wall_s,
                 elif t == "F":
                     fatal.append(p[1])
                 elif t == "DONE":
-                    done = True
+                    ndone += 1
+                    done = ndone >= int(spec.get("_expected_done", 1))
             except (IndexError, ValueError) as e:
                 fatal.append("bad protocol line %r (%s)" % (line[:200], e))
     if harness_rc != 0 and not fatal:
